@@ -290,6 +290,33 @@ fn check_iso_any(c: &IsoCase, info: &mut Info) -> Result<(), String> {
     }
 }
 
+/// the same point in several representatives, its negation, the same again: back to back
+#[derive(Clone, Debug, Serialize, Deserialize, PartialEq, Eq, Hash)]
+pub struct IsoSeq {
+    pub base: IsoCase,
+    pub steps: Vec<(RepR, bool)>,
+}
+
+fn iso_seq_strategy() -> BoxedStrategy<IsoSeq> {
+    (prop_oneof![iso_case_strategy(0), iso_case_strategy(1)], proptest::collection::vec((rep_strategy(), any::<bool>()), 1..4)).prop_map(|(base, steps)| IsoSeq { base, steps }).boxed()
+}
+
+fn check_iso_seq(c: &IsoSeq, info: &mut Info) -> Result<(), String> {
+    let mut tmp = Info::default();
+    check_iso_any(&c.base, &mut tmp)?;
+    for (i, (rep, neg)) in c.steps.iter().enumerate() {
+        let mut case = c.base.clone();
+        case.rep = rep.clone();
+        if *neg {
+            case.p = IsoPtR::Neg(Box::new(case.p));
+        }
+        let mut tmp = Info::default();
+        check_iso_any(&case, &mut tmp).map_err(|m| format!("call #{} after evaluating a related point first: {}", i + 1, m))?;
+    }
+    info.nt();
+    Ok(())
+}
+
 // ---- coefficient tables: diagnostic only ---------------------------------------------------------
 
 fn run_tables(_ctx: &Ctx, rec: &mut dyn FnMut(Value, Info)) -> Result<(), (String, Value)> {
@@ -325,6 +352,7 @@ pub fn def() -> PropDef {
         subs: vec![
             Box::new(Sub { name: "g1-iso11", rule: "11-isogeny E1' -> E vs model rational map; homomorphism", quick: 12_000, thorough: 50_000, strategy: || boxed(iso_case_strategy(0)), check: check_iso_any }),
             Box::new(Sub { name: "g2-iso3", rule: "3-isogeny E2' -> E' vs model rational map; homomorphism", quick: 12_000, thorough: 50_000, strategy: || boxed(iso_case_strategy(1)), check: check_iso_any }),
+            Box::new(Sub { name: "related-sequences", rule: "the same point in other representatives / negated / again, evaluated back to back, each compared with the model", quick: 1_500, thorough: 30_000, strategy: || boxed(iso_seq_strategy()), check: check_iso_seq }),
             Box::new(EnumSub { name: "tables-diagnostic", rule: "hook coefficient tables vs the frozen copy: recorded only (a behavioural difference is what counts)", run: run_tables, replay: replay_tables, exhaustive: true }),
         ],
         assumptions: {
